@@ -239,6 +239,11 @@ type vpC36Env struct {
 	lnFast  *vpC36Listener
 	stdSrv  *http.Server
 	fastSrv *fasthttp.Server
+	// a second adaptor server with Server.DisableHeaderNamesNormalizing: ConvertRequest then gets header
+	// names as they were sent and has to bring them to net/http's canonical form itself
+	fastSrvNN *fasthttp.Server
+	lnFastNN  *vpC36Listener
+	useNN     atomic.Bool
 	wg      sync.WaitGroup
 }
 
@@ -352,9 +357,16 @@ func vpC36NewEnv() *vpC36Env {
 		Handler: NewFastHTTPHandler(e.handler(1)),
 		Logger:  vpC36NopLogger{},
 	}
-	e.wg.Add(2)
+	e.lnFastNN = vpC36NewListener()
+	e.fastSrvNN = &fasthttp.Server{
+		Handler:                       NewFastHTTPHandler(e.handler(1)),
+		Logger:                        vpC36NopLogger{},
+		DisableHeaderNamesNormalizing: true,
+	}
+	e.wg.Add(3)
 	go func() { defer e.wg.Done(); _ = e.stdSrv.Serve(e.lnStd) }()
 	go func() { defer e.wg.Done(); _ = e.fastSrv.Serve(e.lnFast) }()
+	go func() { defer e.wg.Done(); _ = e.fastSrvNN.Serve(e.lnFastNN) }()
 	return e
 }
 
@@ -362,7 +374,9 @@ func (e *vpC36Env) close() {
 	_ = e.stdSrv.Close()
 	_ = e.lnStd.Close()
 	_ = e.lnFast.Close()
+	_ = e.lnFastNN.Close()
 	_ = e.fastSrv.Shutdown()
+	_ = e.fastSrvNN.Shutdown()
 	e.wg.Wait()
 }
 
@@ -1015,7 +1029,11 @@ func vpC36RunCase(e *vpC36Env, prog *vpC36Prog, req *vpC36Req, mask vpC36Mask) *
 	var wg sync.WaitGroup
 	wg.Add(2)
 	go func() { defer wg.Done(); o.std = vpC36RoundTrip(e.lnStd, req.Method, req.Raw) }()
-	go func() { defer wg.Done(); o.fast = vpC36RoundTrip(e.lnFast, req.Method, req.Raw) }()
+	lnFast := e.lnFast
+	if e.useNN.Load() {
+		lnFast = e.lnFastNN
+	}
+	go func() { defer wg.Done(); o.fast = vpC36RoundTrip(lnFast, req.Method, req.Raw) }()
 	wg.Wait()
 	stuck := [2]bool{}
 	for side := 0; side < 2; side++ {
@@ -1316,6 +1334,8 @@ func TestVP_C36_Request(t *testing.T) {
 	rapid.Check(t, func(t *rapid.T) {
 		excl := map[string]bool{}
 		req := vpC36GenReq(t, true, excl)
+		e.useNN.Store(rapid.IntRange(0, 3).Draw(t, "adaptorServerWithoutNameNormalizing") == 0)
+		defer e.useNN.Store(false)
 		prog := &vpC36Prog{}
 		switch rapid.IntRange(0, 3).Draw(t, "progshape") {
 		case 0:
